@@ -35,7 +35,32 @@ def exec_case(rng):
     return Case("data-exec", lines, None, {"text": text, "kind": "exec", "abstract": (items, decls)})
 
 
+def byname_sequences(rng):
+    """Deterministic by-name access PAIRS over variables of every element width: an indexed access followed by a plain one,
+    a plain one followed by an indexed one, different widths for declaration and access, the same variable twice — every
+    ordered pair of (la | load | store) x (index 0 / none / 1 / 2). What one by-name line computes must not leak into the next."""
+    decls = [("arr", "word", [11, 22, 33, 44]), ("total", "word", [7]), ("hs", "half", [300, -2, 5, 9]), ("bs", "byte", [1, 2, 3, 4, 5, 6, 7, 8]),
+             ("msg", "string", "abcdefgh"), ("zz", "zero", 3)]
+    acc = []
+    for nm, w_mns in (("arr", ("lw", "sw")), ("total", ("lw", "sw")), ("hs", ("lh", "sh")), ("bs", ("lbu", "sb")), ("msg", ("lbu", "sb")), ("zz", ("lw", "sw"))):
+        for idx in (None, 0, 1, 2):
+            if nm == "total" and idx not in (None, 0):
+                continue
+            acc.append(("la", 5, nm, idx))
+            acc.append(("loadv", w_mns[0], 6, nm, idx))
+            acc.append(("storev", w_mns[1], 7, nm, idx, 28))
+    # mixed widths: byte and half-word loads of word variables and vice versa (aligned elements only)
+    acc += [("loadv", "lbu", 6, "arr", 1), ("loadv", "lh", 6, "arr", 2), ("loadv", "lw", 6, "bs", 4), ("loadv", "lhu", 6, "msg", 4), ("loadv", "lb", 6, "zz", 1)]
+    rng.shuffle(acc)
+    for i in range(0, len(acc) - 1):
+        items = [("li", 7, 0x5A5A5A5A), acc[i], acc[i + 1], acc[i]]
+        text = rvasmgen.render(rng, items, decls)
+        lines = ["sim.new single 1 - -", f"sim.load {rvasmgen.hx(text)}", "sim.arch", "sim.run 400", "sim.arch"]
+        yield Case("data-exec", lines, None, {"text": text, "kind": "exec", "abstract": (items, decls)})
+
+
 def cases(rng, tier):
+    yield from byname_sequences(rng)
     yield Case("help-example", ["sim.new single 1 - -", f"sim.load {rvasmgen.hx(rvasmgen.HELP_EXAMPLE)}", "sim.run 400", "sim.arch"], None,
                {"text": rvasmgen.HELP_EXAMPLE, "kind": "help"})
     allc = [(h << 12) | l for h in HIGHS for l in LOWS]
